@@ -1122,13 +1122,14 @@ theorem serve_ok (cfg : Config) (specs : List ConnSpec) (evs : List Ev) (s : Srv
 /-- without write failures everything a connection produces reaches its client: the pooled,
     flushing run of a connection that starts from empty buffers is `Conn.run` -/
 theorem runConn_eq_run (cfg : Config) (segs : List Bytes) :
-    (runConn cfg Buf.empty Buf.empty ⟨segs, none⟩).1 = (run cfg segs).map Action'.act := by
+    (runConn cfg Buf.empty Buf.empty ⟨segs, none⟩).1 =
+      ((run cfg segs).filter (fun a => !a.isDropped)).map Action'.act := by
   unfold runConn run feedSegs Buf.empty St.init
   simp only [List.isEmpty_nil, if_true]
   have key : ∀ (chunks : List Bytes) (s : IOSt) (acc : St × List Action),
-      s.st = acc.1 → s.out = acc.2 → s.ended = acc.1.closed → (s.ended = false → s.wbuf = []) →
+      s.st = acc.1 → s.out = acc.2.filter (fun a => !a.isDropped) → s.ended = acc.1.closed → (s.ended = false → s.wbuf = []) →
       (chunks.foldl (ioRead cfg none) s).out =
-        (chunks.foldl (fun (acc : St × List Action) c => let (s', a) := onRead cfg acc.1 c; (s', acc.2 ++ a)) acc).2 := by
+        ((chunks.foldl (fun (acc : St × List Action) c => let (s', a) := onRead cfg acc.1 c; (s', acc.2 ++ a)) acc).2).filter (fun a => !a.isDropped) := by
     intro chunks
     induction chunks with
     | nil => intro s acc _ h2 _ _; simpa using h2
